@@ -219,7 +219,13 @@ impl Gen {
         if !vars.is_empty() && rng.chance(3, 4) {
             let v = *rng.pick(&vars);
             self.writer_targets.insert(v);
-            ops.push(InOp::Write(v, if rng.chance(1, 2) { WriteOp::Set(rng.range(0, 4)) } else { WriteOp::Replace(rng.range(0, 4)) }));
+            // the first deferred write takes a different path in the library than later ones, so
+            // every operation gets to be first (the script ends on the per-variable constant anyway)
+            ops.push(InOp::Write(v, match rng.below(4) {
+                0 => WriteOp::Set(rng.range(0, 4)),
+                1 => WriteOp::Replace(rng.range(0, 4)),
+                _ => write_op(rng),
+            }));
             let n_mid = rng.below(3);
             for _ in 0..n_mid {
                 ops.push(InOp::Write(v, write_op(rng)));
@@ -228,6 +234,10 @@ impl Gen {
             ops.push(InOp::Write(v, if rng.chance(1, 2) { WriteOp::Set(c) } else { WriteOp::Replace(c) }));
             if rng.chance(1, 2) {
                 ops.push(InOp::ReadVar(v));
+            }
+            if rng.chance(1, 8) && vars.len() > 1 {
+                // the last harness handle goes away inside the closure, with a write pending
+                ops.push(InOp::DropVar(v));
             }
         }
         if !w.observers.is_empty() && rng.chance(1, 2) {
@@ -264,6 +274,7 @@ impl Gen {
             0 => ops.push(InOp::UnsubscribeSelf),
             1 => ops.push(InOp::DisallowOwn),
             2 => ops.push(InOp::SubscribeOwn),
+            3 => ops.push(InOp::DropOwn),
             _ => {}
         }
         ops
@@ -286,6 +297,8 @@ impl Gen {
             ("writer", if self.cfg.writers { 2 } else { 0 }),
             ("const", 1),
             ("enum", 1),
+            ("mwop", 2),
+            ("hold", if self.cfg.writers { 1 } else { 0 }),
         ];
         let ws: Vec<usize> = kinds.iter().map(|k| k.1).collect();
         let which = kinds[rng.weighted(&ws)].0;
@@ -322,6 +335,16 @@ impl Gen {
             "mapref" => Kind::MapRef(rng.below(2) as u8, self.pick_node(w, rng, Ty::P)?),
             "mapp" => Kind::MapP(f2(rng), self.pick_node(w, rng, Ty::P)?),
             "mwo" => Kind::MapWithOld(f1(rng), pick_i(self, rng)?, rng.chance(2, 3)),
+            "mwop" => Kind::MapWithOldPair(f1(rng), pick_i(self, rng)?, rng.chance(2, 3)),
+            "hold" => {
+                let vars: Vec<VarId> = (0..w.model.vars.len())
+                    .filter(|v| w.model.vars[*v].handle_alive && matches!(w.model.vars[*v].cur, Val::I(_)))
+                    .collect();
+                if vars.is_empty() {
+                    return None;
+                }
+                Kind::MapHold(f1(rng), pick_i(self, rng)?, *rng.pick(&vars))
+            }
             "dep" => {
                 let a = pick_i(self, rng)?;
                 let on = if rng.chance(1, 3) { self.pick_node(w, rng, Ty::P).unwrap_or(a) } else { pick_i(self, rng)? };
